@@ -397,6 +397,9 @@ func (v *FnVC) specBinary(x *Binary, env *Env, cl *Clause) Term {
 			s = isNilTerm(b)
 		case isString(a.T) || isString(b.T):
 			s = strEqTerm(a.S, b.S)
+			if strings.HasPrefix(s, "(streq ") {
+				s = fmt.Sprintf("(or (= %s %s) %s)", a.S, b.S, s)
+			}
 		default:
 			s = fmt.Sprintf("(= %s %s)", a.S, b.S)
 		}
@@ -501,6 +504,10 @@ func (v *FnVC) specCall(x *CallE, env *Env, cl *Clause) Term {
 			r = fmt.Sprintf("(sl_ref %s)", a.S)
 		}
 		return Term{fmt.Sprintf("(>= %s %s)", r, envGet(v, base, "nextref")), tBool}
+	case "same":
+		a := v.specTerm(x.Args[0], env, cl)
+		b := v.specTerm(x.Args[1], env, cl)
+		return Term{fmt.Sprintf("(= %s %s)", a.S, b.S), tBool}
 	case "streq":
 		a := v.specTerm(x.Args[0], env, cl)
 		b := v.specTerm(x.Args[1], env, cl)
